@@ -106,6 +106,8 @@ class FrameSetup(object):
         E = engine_cls(self.prog, port=self.port, summaries=sums, entry_name=name)
         E.loop_info = {}
         E.keep_iter_states = getattr(self, 'keep_iter_states', False)
+        if getattr(self, 'force_summary', False):
+            E.force_summary = True
         E.debug_loops = bool(os.environ.get('LLTD_DEBUG_LOOPS'))
         mo = self.soff('mapper_real')
         E.tracked_preds = {'M': [(('in', 'st', mo + i), ('in', 'frame', 24 + i)) for i in range(6)],
@@ -455,7 +457,7 @@ def live_heap(fs, st, ignore=('st',)):
 def queryresp_announced(fs, st):
     """The descriptor count a QueryResp must announce on this path: capacity when more observations are pending
     than fit, else the recorded count; None if the path compared neither."""
-    cap = ('div', ('add', fs.frame_size, C(-34)), C(20))
+    cap = ('div', ('add', fs.frame_size if fs.mtu_ok else C(1500), C(-34)), C(20))      # (the MTU the code works with: the port's, or the 1500 fallback)
     if st.prove_lt(cap, SEEN_COUNT):
         return cap
     if st.prove_le(SEEN_COUNT, cap):
@@ -473,4 +475,10 @@ def queryresp_length_ok(fs, st, snap):
     L = snap.length
     exact = st.same(L, want) or (st.prove_le(L, want) and st.prove_le(want, L))
     short_ok = (not exact) and any(str(k).startswith('exit:') for k in st.tags) and st.prove_le(L, want)
+    if not exact and not short_ok:
+        # a path on which the list head was NULL at entry although the recorded count is positive: excluded by the same
+        # invariant (count = list length); the loop never ran, so it carries no exit tag
+        head = st.canon(('pset', ('in', 'st', fs.soff('see_list')), (ZERO, ('ptr', 'SEEN', ZERO))))
+        if head == ZERO and st.dom(SEEN_COUNT).lo >= 1 and st.prove_le(L, want):
+            short_ok = True
     return exact or short_ok, announced, short_ok
